@@ -178,7 +178,8 @@ def _custom(draw):
     nodes = []
     for i in range(n):
         if i:
-            x += draw(st.one_of(st.floats(0.01, 0.5), st.sampled_from([0.01, 0.025, 0.05, 0.1, 0.2])))
+            x += draw(st.one_of(st.floats(0.01, 0.5), st.sampled_from([0.01, 0.025, 0.05, 0.1, 0.2]),
+                               st.sampled_from([0.005, 0.002, 0.005, 0.001])))   # radar-style dense sampling
         nodes.append([x, draw(st.floats(0.05, 2.0))])
     qs = []
     for _ in range(12):
